@@ -12,6 +12,8 @@
     ladder model is what `tools/inventory_dispatch.py` extracts from `x86_64/mod.rs` on every run
     (`CC/Gen/Dispatch.lean`).
 -/
+import CC.Gen.CfgAtoms
+import CC.Feat.CfgAtoms
 import CC.Simd.Proof.BackendEq
 import CC.Simd.Dispatch
 import CC.Gen.Dispatch
@@ -132,5 +134,11 @@ example : (select .light256 .nostd ⟨true, false, false, false, false⟩).map (
 /-- without `sse2` the std ladder does fall through to `unimplemented!()` (the hypothesis matters) -/
 example : select .dispatch .std ⟨false, false, false, false, false⟩ = none := by decide
 example : (⟨true, true, true, false, false⟩ : Feat).consistent = true := by decide
+
+
+/-- Source tie: every compile-time configuration atom other than cargo features that the sources mention
+    (`target_feature`, `target_endian`, `target_arch`, `is_x86_feature_detected!` names, …; regenerated on
+    every run) is one the models and the harness configurations account for — no new atom, no new site. -/
+theorem cfg_atoms_as_modelled : CC.Gen.CfgAtoms.atoms = CC.Feat.CfgAtoms.expected := rfl
 
 end CC.Thm.C03
